@@ -231,6 +231,32 @@ Example C20_P_rejects :
   = [1; 1; 2; 3; 3; 4]%N.
 Proof. vm_compute. reflexivity. Qed.
 
+(* Calls that change nothing -- Unregister for a listener that is not (or no longer)
+   registered on the subject, Register for one that is -- are part of the histories P_C20
+   judges: they open and close no registration interval, so a listener that stays
+   registered must still receive everything (clause 1). *)
+Example C20_P_unbalanced_calls :
+  let pre := [HRegStart 1 0; HRegEnd 1 0 true; HRegStart 2 0; HRegEnd 2 0 true;
+              HUnregStart 2 0; HUnregEnd 2 0; HUnregStart 2 0; HUnregEnd 2 0;      (* 2 leaves twice *)
+              HUnregStart 3 0; HUnregEnd 3 0;                                      (* 3 never was there *)
+              HRegStart 1 0; HRegEnd 1 0 true;                                     (* 1 registers again *)
+              HPubStart 10 0 77; HPubEnd 10 true] in
+  hist_wf (index pre) = true /\
+  P_C20_clause (fun _ => 2%N) (index (pre ++ [ERecv 1 2 10 77 false])) = 0%N /\
+  P_C20_clause (fun _ => 2%N) (index pre) = 1%N /\                                (* 1 was dropped with 2 *)
+  P_C20_clause (fun _ => 2%N) (index (pre ++ [ERecv 1 2 10 77 false; ERecv 2 2 10 77 false])) = 3%N.
+Proof. vm_compute. repeat split; reflexivity. Qed.
+
+(* the model on that script: the second Unregister of listener 2 leaves the subscriber of
+   the user subject open with listener 1, which is handed the message (an instance of what
+   C20_bus_fifo_exact says for every op list that does not unregister listener 1) *)
+Example C20_model_double_unregister :
+  let tu := T KUser "u" (Some "b") in
+  let t := run [Register tu 1%N; RegFinish; Register tu 2%N; Unregister tu 2%N; Unregister tu 2%N;
+                Unregister tu 3%N; Publish tu 7%N; Dispatch; Send 0; Begin 0; Pick 0 1%N; Call 0; End_ 0] init in
+  dlog t = [(0, 1%N, 7%N)] /\ map ls (subs t) = [[1%N]] /\ map opened (subs t) = [true].
+Proof. vm_compute. repeat split; reflexivity. Qed.
+
 Print Assumptions C20_bus_fifo_exact.
 Print Assumptions C20_received_is_prefix.
 Print Assumptions C20_drained_equal.
